@@ -1,4 +1,4 @@
-\* Thorough concurrent model checking of the C33 contract: adds the progress-reporting "shards" gate and one more operation.
+\* Thorough concurrent model checking of the C33 contract: adds the progress-reporting "shards" ready checker (three more state changes, a third name in every snapshot).
 SPECIFICATION Spec
 CONSTANTS
   Gates = {"bolt", "engine"}
@@ -7,7 +7,7 @@ CONSTANTS
   HPulse = {}
   HShards = {}
   Reqs = {"r1", "r2"}
-  MaxOps = 5
+  MaxOps = 4
   MaxReq = 2
   PreReg = FALSE
   Atomic = FALSE
